@@ -29,6 +29,20 @@ Notation Fresh := (Fresh Hh dge cname).
 Notation conflict := (conflict Hh dge cname).
 Notation fresh_hist := (fresh_hist Hh dge cname kle).
 
+(** The auxiliary notions used below, pinned here (all by computation): the side
+    selectors, "user operation", and "every run of the history starts in [Fresh]". *)
+Theorem C02_definitions_unfold :
+  (forall s : state, side_tree SA s = tA s /\ side_tree SB s = tB s) /\ other SA = SB /\ other SB = SA /\
+  (forall o : hop, is_user_op o <-> exists sd p, (exists c, o = HWrite sd p c) \/ o = HDelete sd p) /\
+  (forall s : state, fresh_hist s [] <-> True) /\
+  (forall (s : state) o r, fresh_hist s (o :: r) <-> (o = HRun -> Fresh s) /\ fresh_hist (hstep s o) r).
+Proof.
+  split; [intros s; split; reflexivity|]. split; [reflexivity|]. split; [reflexivity|].
+  split; [|split; intros; reflexivity].
+  intros [sd p c|sd p| |]; cbn; split; try tauto; eauto 6;
+    intros (sd' & p' & [[c' X]|X]); discriminate X.
+Qed.
+
 (** One run.  Every version [c] present at [p] on side [sd] when the run starts is
     afterwards held by BOTH trees - at [p], or at the conflict name this run
     generated for [p] with [c] as the loser - unless the record holds [c]'s digest
@@ -86,6 +100,7 @@ Theorem C02_history_no_loss :
 Proof. exact (history_no_loss Hh dge cname kle). Qed.
 End C02.
 
+Print Assumptions C02_definitions_unfold.
 Print Assumptions C02_run_no_loss.
 Print Assumptions C02_arch_truthful.
 Print Assumptions C02_arch_is_previous_run.
@@ -108,8 +123,7 @@ Theorem C02_name_clash_loses_version :
   (map_to_list <$> arch r.1.1) = Some [(1%nat, [2]%Z); (101%nat, [7]%Z)].
 Proof.
   cbv zeta. split.
-  - intros [F1 _]. specialize (F1 1%nat 101%nat [1]%Z). vm_compute in F1.
-    destruct (F1 eq_refl) as [[X _]|[X _]]; discriminate X.
+  - intros [F1 _]. destruct (F1 1%nat 101%nat [1]%Z) as ([X|X] & _); [vm_compute; reflexivity| |]; vm_compute in X; discriminate X.
   - vm_compute. repeat split.
 Qed.
 Print Assumptions C02_name_clash_loses_version.
